@@ -96,9 +96,17 @@ def probe_finding(finding):
 
 
 # ---- generator ----------------------------------------------------------------------------
+DEC_DELAYS = [0.1, 0.2, 0.3, 0.7, 0.9, 1.1]
+DEC_DATES = [0.3, 0.9, 1.3, 1.7, 2.9, 0.1, -0.1]
+
+
 class Gen:
-    def __init__(self, rng):
+    def __init__(self, rng, decimal=False):
         self.rng = rng
+        # decimal (non-dyadic) delays, dates and start times: `now + (date - now)` is not `date`
+        # for many of them, so any detour through a relative delay shows as a one-ulp difference
+        self.delays = DEC_DELAYS if decimal else DELAYS
+        self.dates = DEC_DATES if decimal else [0, 0.5, 1, 2, 3, 4, 6, -1]
         self.n = 0
         self.resources = {}
         self.setters = []
@@ -112,19 +120,19 @@ class Gen:
         rng = self.rng
         r = rng.random()
         if r < 0.18 and not monotone:       # a Delay is no Condition: not allowed in & and |
-            return {"k": "delay", "d": rng.choice(DELAYS)}
+            return {"k": "delay", "d": rng.choice(self.delays)}
         if r < 0.42:
             op = rng.choice([">=", "=="]) if monotone else rng.choice([">=", "==", "==", "<"])
             if monotone:
                 op = ">="
-            return {"k": "time", "op": op, "t": rng.choice([0, 0.5, 1, 2, 3, 4, 6, -1])}
+            return {"k": "time", "op": op, "t": rng.choice(self.dates)}
         if r < 0.66:
             name = self.fresh("F")
             init = rng.random() < 0.2
             self.resources[name] = {"kind": "flag", "init": init}
             ops = []
             for i in range(rng.choice([0, 1, 1, 1, 2, 3]) if not monotone else rng.choice([0, 1])):
-                ops.append({"op": "sleep", "d": rng.choice(DELAYS)})
+                ops.append({"op": "sleep", "d": rng.choice(self.delays)})
                 to = (i % 2 == 0) if not init else (i % 2 == 1)
                 if monotone:
                     to = True
@@ -139,7 +147,7 @@ class Gen:
             self.resources[name] = {"kind": "tracked", "init": rng.randint(0, 3)}
             ops = []
             for _ in range(rng.randint(0, 3)):
-                ops.append({"op": "sleep", "d": rng.choice(DELAYS)})
+                ops.append({"op": "sleep", "d": rng.choice(self.delays)})
                 ops.append({"op": "tr_set", "on": name, "to": rng.randint(0, 4)})
                 if rng.random() < 0.3:
                     ops.append({"op": "tr_set", "on": name, "to": rng.randint(0, 4)})
@@ -148,7 +156,7 @@ class Gen:
                     "r": rng.randint(1, 3)}
         if r < 0.92:
             name = self.fresh("d")
-            ops = [{"op": "sleep", "d": rng.choice(DELAYS)} for _ in range(rng.randint(0, 2))]
+            ops = [{"op": "sleep", "d": rng.choice(self.delays)} for _ in range(rng.randint(0, 2))]
             self.tasks.append({"name": name, "ops": ops})
             return {"k": "done", "task": name}
         if r < 0.96:
@@ -169,7 +177,7 @@ class Gen:
         for _ in range(rng.randint(0, 3)):
             r = rng.random()
             if r < 0.5:
-                ops.append({"op": "sleep", "d": rng.choice(DELAYS)})
+                ops.append({"op": "sleep", "d": rng.choice(self.delays)})
             elif r < 0.65:
                 ops.append({"op": "postpone", "k": rng.randint(1, 2)})
             elif r < 0.8:
@@ -189,7 +197,7 @@ class Gen:
             op["subject"] = True
             op["until"] = self.notification()
         elif rng.random() < 0.5:
-            op["until"] = {"k": "delay", "d": rng.choice(DELAYS)} if rng.random() < 0.6 else \
+            op["until"] = {"k": "delay", "d": rng.choice(self.delays)} if rng.random() < 0.6 else \
                 {"k": "time", "op": ">=", "t": rng.choice([1, 2, 3, 4])}
         for _ in range(rng.choice([0, 0, 1, 2])):
             child = {"name": self.fresh("c"), "ops": self.body(depth + 1)}
@@ -198,7 +206,7 @@ class Gen:
                 if rng.random() < 0.5:
                     child["ops"].append({"op": "eternity"})
             if rng.random() < 0.25:
-                child["after"] = rng.choice(DELAYS)
+                child["after"] = rng.choice(self.delays)
             op["children"].append(child)
         op["body"] = self.body(depth)
         if subject and rng.random() < 0.15:
@@ -209,11 +217,11 @@ class Gen:
             shared = {"k": "shared", "n": op["label"] + "N", "x": op["until"]}
             op["until"] = shared
             inner = {"op": "scope", "label": self.fresh("S"), "children": [], "until": shared,
-                     "body": [rng.choice([{"op": "sleep", "d": rng.choice(DELAYS + [4])},
+                     "body": [rng.choice([{"op": "sleep", "d": rng.choice(self.delays + [4])},
                                           {"op": "eternity"}])]}
             op["body"].insert(rng.randint(0, len(op["body"])), inner)
             if rng.random() < 0.5:
-                op["body"].append({"op": "sleep", "d": rng.choice(DELAYS + [4])})
+                op["body"].append({"op": "sleep", "d": rng.choice(self.delays + [4])})
                 op["body"].append({"op": "now", "tag": "late"})
         return op
 
@@ -221,18 +229,18 @@ class Gen:
         rng = self.rng
         pre = []
         for _ in range(rng.choice([0, 0, 1, 2])):
-            pre.append({"op": "sleep", "d": rng.choice(DELAYS)})
+            pre.append({"op": "sleep", "d": rng.choice(self.delays)})
         subject = self.scope(0, subject=True)
         block = subject
         if rng.random() < 0.25:
             outer = {"op": "scope", "label": self.fresh("O"), "children": [],
-                     "until": {"k": "delay", "d": rng.choice(DELAYS + [4, 6])},
-                     "body": [{"op": "sleep", "d": rng.choice(DELAYS)}] * rng.randint(0, 1)
+                     "until": {"k": "delay", "d": rng.choice(self.delays + [4, 6])},
+                     "body": [{"op": "sleep", "d": rng.choice(self.delays)}] * rng.randint(0, 1)
                      + [subject, {"op": "now", "tag": "in-outer"}]}
             block = outer
         post = [{"op": "now", "tag": "post"}]
         for _ in range(rng.randint(1, 3)):
-            post.append({"op": "sleep", "d": rng.choice(DELAYS + [4])})
+            post.append({"op": "sleep", "d": rng.choice(self.delays + [4])})
             post.append({"op": "now", "tag": "post"})
         actors = [{"name": "u", "ops": pre + [block] + post}]
         actors += self.tasks + self.setters
@@ -241,13 +249,19 @@ class Gen:
 
 
 def generate(rng, tier):
-    gen = Gen(rng)
+    decimal = rng.random() < 0.2
+    gen = Gen(rng, decimal)
     scenario = gen.program()
     mode = "until"
+    if decimal:
+        scenario["start"] = rng.choice([0.2, 0.3, 0.6, 0.7, 0])
     if rng.random() < 0.15:
         mode = "till"
-        scenario["start"] = rng.choice([0, 0, -1, 2])
-        scenario["till"] = scenario["start"] + rng.choice([0, 0.25, 0.5, 1, 1.25, 2, 3, 5, 40])
+        if decimal:
+            scenario["till"] = rng.choice([0.9, 1.7, 2.9, 1.3, scenario["start"]])
+        else:
+            scenario["start"] = rng.choice([0, 0, -1, 2])
+            scenario["till"] = scenario["start"] + rng.choice([0, 0.25, 0.5, 1, 1.25, 2, 3, 5, 40])
     return {"property": ID, "mode": mode, "scenario": scenario, "plan": [],
             "config": {"waitq": rng.choice(["heap", "sd"])}}
 
@@ -430,7 +444,13 @@ def check_until(rec, twin):
     elif twin_exit is not None and exit_ev[4] == "scope-" and twin_exit[4] == "scope-" \
             and not _inside_outer(rec.case["scenario"]):
         shift = exit_ev[2] - twin_exit[2]
-        if [(t, k) for (t, k, *_) in post] != [(t + shift, k) for (t, k, *_) in twin_post]:
+        # (decimal programs: the shifted twin times are not bit-exact, the rule is about the actor
+        # carrying on as before, so a rounding error is tolerated here and only here)
+        mine_post = [(t, k) for (t, k, *_) in post]
+        want_post = [(t + shift, k) for (t, k, *_) in twin_post]
+        if len(mine_post) != len(want_post) or any(
+                ka != kb or abs(ta - tb) > 1e-9 * max(1.0, abs(ta))
+                for (ta, ka), (tb, kb) in zip(mine_post, want_post)):
             bad("after-block", "after block %s (ended %r) the actor's later waits are off: %r vs "
                 "twin %r shifted by %r" % (label, exit_ev[2], post, twin_post, shift))
     return out, info
